@@ -134,7 +134,13 @@ def main():
                     met = any(c in res and res[c]["violations"] > 0 for c in owners)
                 else:
                     met = not res
-                results["mutants"][name] = {"status": "ok" if met else "UNMET", "kind": kind, "owners": owners,
+                status = "ok" if met else "UNMET"
+                if for_pid and not met and len(owners) > 1:
+                    # `owners` means "at least one of these checks reports it" (that is what the full run verifies); a single
+                    # check of the list that stays silent is not a missed detection
+                    status = "reported-by-another-owner %s" % [o for o in owners if o != for_pid]
+                    met = True
+                results["mutants"][name] = {"status": status, "kind": kind, "owners": owners,
                                             "file": path, "reported_by": res}
                 ok_all = ok_all and met
                 print(name, kind, "ok" if met else "UNMET", {c: v["rules"][:3] for c, v in res.items()}, flush=True)
